@@ -13,6 +13,7 @@ package verifsim
 import (
 	"fmt"
 	"hash/fnv"
+	"reflect"
 	"runtime"
 	"sort"
 	"strings"
@@ -806,3 +807,89 @@ func W31[A, B, C, R any](site string, f func(A, B, C) R) func(A, B, C) R {
 func W32[A, B, C, R, S any](site string, f func(A, B, C) (R, S)) func(A, B, C) (R, S) {
 	return func(a A, b B, c C) (R, S) { Yield(site); return f(a, b, c) }
 }
+
+// ---------------------------------------------------------------- select
+
+// SelCase is one communication clause of a rewritten select statement.
+type SelCase struct {
+	Send bool
+	Chan any // the channel
+	Val  any // value to send
+}
+
+// RecvOf / SendOf build the cases (the channel and value expressions are
+// evaluated once, in source order, as the language prescribes).
+func RecvOf(ch any) SelCase        { return SelCase{Chan: ch} }
+func SendOf(ch any, v any) SelCase { return SelCase{Send: true, Chan: ch, Val: v} }
+
+// Select replaces a select statement with two or more communication clauses.
+// Go chooses uniformly at random among ready cases; here the order in which
+// ready cases are tried comes from the simulation's auxiliary PRNG, so the
+// choice is reproducible and every ready case can be chosen. If nothing is
+// ready and there is no default clause the task blocks natively on all cases
+// (only one task runs at a time, so at most one case becomes ready first).
+// It returns the index of the chosen case (-1 = default), the received value
+// and the receive's ok flag.
+func Select(site string, hasDefault bool, cases ...SelCase) (int, reflect.Value, bool) {
+	Yield(site)
+	rc := make([]reflect.SelectCase, len(cases))
+	for i, c := range cases {
+		rc[i] = reflect.SelectCase{Dir: reflect.SelectRecv, Chan: reflect.ValueOf(c.Chan)}
+		if c.Send {
+			rc[i].Dir = reflect.SelectSend
+			ct := rc[i].Chan.Type().Elem()
+			if c.Val == nil {
+				rc[i].Send = reflect.Zero(ct)
+			} else {
+				rc[i].Send = reflect.ValueOf(c.Val).Convert(ct)
+			}
+		}
+		if !rc[i].Chan.IsValid() || rc[i].Chan.IsNil() {
+			rc[i].Chan = reflect.Value{} // nil channel: never ready
+			rc[i].Send = reflect.Value{}
+		}
+	}
+	order := make([]int, len(cases))
+	for i := range order {
+		order[i] = i
+	}
+	if s := active.Load(); s != nil && s.cfg.MapSeed != 0 {
+		s.mu.Lock()
+		for i := len(order) - 1; i > 0; i-- {
+			j := int(s.randLocked() % uint64(i+1))
+			order[i], order[j] = order[j], order[i]
+		}
+		s.mu.Unlock()
+	}
+	for _, i := range order {
+		if !rc[i].Chan.IsValid() {
+			continue
+		}
+		chosen, v, ok := reflect.Select([]reflect.SelectCase{rc[i], {Dir: reflect.SelectDefault}})
+		if chosen == 0 {
+			Yield(site + "/post")
+			return i, v, ok
+		}
+	}
+	if hasDefault {
+		return -1, reflect.Value{}, false
+	}
+	chosen, v, ok := reflect.Select(rc)
+	Yield(site + "/post")
+	return chosen, v, ok
+}
+
+// As converts a value received through Select to its static type.
+func As[T any](v reflect.Value) T {
+	var zero T
+	if !v.IsValid() {
+		return zero
+	}
+	if x, ok := v.Interface().(T); ok {
+		return x
+	}
+	return zero
+}
+
+// AsOf is As with the element type inferred from the channel.
+func AsOf[T any](ch <-chan T, v reflect.Value) T { return As[T](v) }
